@@ -180,24 +180,7 @@ func init() {
 		// directed: pages that are merely loaded (write buffer, not dirty) / read while the commit of their
 		// transaction runs the automatic checkpoint of the overwrite mapping
 		for i := 0; i < 12; i++ {
-			lim := uint(1 + i%3)
-			ops := []engine.Op{{Kind: "begin"}, {Kind: "alloc", N: 6}}
-			for k := 0; k < 6; k++ {
-				ops = append(ops, engine.Op{Kind: "setfull", P: k, Seed: 10 + k})
-			}
-			ops = append(ops, engine.Op{Kind: "commit"}, engine.Op{Kind: "begin", WALLimit: 1000})
-			for k := 0; k < int(lim)+i%2; k++ { // these pages get overwrite pages
-				ops = append(ops, engine.Op{Kind: "setfull", P: k, Seed: 20 + k})
-			}
-			ops = append(ops, engine.Op{Kind: "commit"}, engine.Op{Kind: "verify"}, engine.Op{Kind: "begin", WALLimit: lim})
-			touch := []string{"load", "read", "load"}[i%3]
-			for k := 0; k < int(lim)+i%2; k++ {
-				ops = append(ops, engine.Op{Kind: touch, P: k})
-			}
-			ops = append(ops, engine.Op{Kind: "setfull", P: 5, Seed: 31 + i}, engine.Op{Kind: "commit"}, engine.Op{Kind: "verify"},
-				engine.Op{Kind: "reopen"}, engine.Op{Kind: "verify"},
-				engine.Op{Kind: "begin", WALLimit: lim}, engine.Op{Kind: "setfull", P: 4, Seed: 51 + i}, engine.Op{Kind: "commit"}, engine.Op{Kind: "verify"})
-			cfg := engine.Config{PageSize: 1024, MaxSize: []uint64{0, 128 * 1024}[i%2], InitMetaArea: uint32(4 * (i % 2))}
+			cfg, ops := ckptTouchScenario(i)
 			runOracleHistory(rep, cfg, ops, int64(i), "", nil, nil)
 			rep.count("scenario:loaded-clean-pages-at-automatic-checkpoint", 1)
 		}
@@ -250,4 +233,28 @@ func init() {
 		}
 		return rep.finish(f)
 	})
+}
+
+// ckptTouchScenario: pages with overwrite pages are merely loaded / read by a transaction whose commit runs the
+// automatic checkpoint of the overwrite mapping.
+func ckptTouchScenario(i int) (engine.Config, []engine.Op) {
+	lim := uint(1 + i%3)
+	ops := []engine.Op{{Kind: "begin"}, {Kind: "alloc", N: 6}}
+	for k := 0; k < 6; k++ {
+		ops = append(ops, engine.Op{Kind: "setfull", P: k, Seed: 10 + k})
+	}
+	ops = append(ops, engine.Op{Kind: "commit"}, engine.Op{Kind: "begin", WALLimit: 1000})
+	for k := 0; k < int(lim)+i%2; k++ { // these pages get overwrite pages
+		ops = append(ops, engine.Op{Kind: "setfull", P: k, Seed: 20 + k})
+	}
+	ops = append(ops, engine.Op{Kind: "commit"}, engine.Op{Kind: "verify"}, engine.Op{Kind: "begin", WALLimit: lim})
+	touch := []string{"load", "read", "load"}[i%3]
+	for k := 0; k < int(lim)+i%2; k++ {
+		ops = append(ops, engine.Op{Kind: touch, P: k})
+	}
+	ops = append(ops, engine.Op{Kind: "setfull", P: 5, Seed: 31 + i}, engine.Op{Kind: "commit"}, engine.Op{Kind: "verify"},
+		engine.Op{Kind: "reopen"}, engine.Op{Kind: "verify"},
+		engine.Op{Kind: "begin", WALLimit: lim}, engine.Op{Kind: "setfull", P: 4, Seed: 51 + i}, engine.Op{Kind: "commit"}, engine.Op{Kind: "verify"})
+	cfg := engine.Config{PageSize: 1024, MaxSize: []uint64{0, 128 * 1024}[i%2], InitMetaArea: uint32(4 * (i % 2))}
+	return cfg, ops
 }
